@@ -215,6 +215,8 @@ def _topo(g: Any) -> Any:
 
 def plan(tier: str, seed: int) -> list[dict[str, Any]]:
     descs = graphs.descriptors(common.sub_seed(seed, "c13") & 0x7FFFFFFF, N_GRAPHS[tier])
+    for i, d in enumerate(descs):
+        d["dw"] = i % 3 == 0          # wrapped data in a third of the generated programs
     n = common.NCPU * (1 if tier == "quick" else 3)
     return [{"descs": c} for c in common.split_even(descs, n)]
 
@@ -281,6 +283,8 @@ def check_graph(desc: dict[str, Any], col: common.Collector, apps: list[Any], tr
     for p, _path, c in reflect.all_edges(g, skip_kinds=reflect.MAPPER_INVISIBLE):
         indeg[id(c)] = indeg.get(id(c), 0) + 1
     shared = max(indeg.values(), default=0) >= 2
+    bufs = [id(n.data) for n in walk_all if isinstance(n, pt.DataWrapper)]
+    shared_buffers = len(set(bufs)) != len(bufs)     # merging them is the function's job
     budget = 64 * len(walk_all) * 4 + 10 ** 4
     for name, fn, flags in apps:
         if flags.get("no_calls") and has_calls:
@@ -320,7 +324,8 @@ def check_graph(desc: dict[str, Any], col: common.Collector, apps: list[Any], tr
                               f"{type(bad[0]).__name__} ({len(bad)} node(s) affected)", wit)
         if flags.get("transform") and res is not None:
             col.count("mon.identity_oracle")
-            if flags.get("identity") and res is not g:
+            if flags.get("identity") and res is not g and not (
+                    name == "deduplicate_data_wrappers" and shared_buffers):
                 col.violation(f"C13:identity-not-preserved:{name}",
                               f"{name} changes nothing on this duplicate-free graph but does "
                               "not return its argument", wit)
